@@ -9,7 +9,7 @@ import openpyxl
 
 from . import fcsgen, beadsgen
 
-BEAD_LAWS = [(1.0, 3.0, 0.0), (1.1, 2.0, 0.0), (0.95, 4.0, 0.0)]
+BEAD_LAWS = [(1.0, 3.0, 0.0), (1.1, 2.0, 0.0), (0.95, 4.0, 0.0), (1.05, 2.5, 0.0)]
 
 
 def instrument(i, nfl=2):
